@@ -32,6 +32,8 @@ func rulesC16(c *Ctx) {
 	c.vocabProblems("R1")
 	c.ruleSigsAfterSpent("R6")
 	c.c16LimitsAreConfigured()
+	R.Rule("R11", "the issued total counts nothing that was not handed out: in the mint operation the signature save is the last fallible step (shared with C03.R7) - a request that fails after the save leaves rows in blind_signatures, and so in total_issued, for signatures nobody received", 2)
+	c.runOnly("R7", "R11", func(cc *Ctx) { rulesC03(cc) })
 	R.Rule("R10", "admin RPC figures: every field named Issued is fed by IssuedEcash only, every field named Redeemed by RedeemedEcash only (per keyset and in total)", 4)
 	c.c16ManagerFigures("R10")
 	R.Rule("R9", "the issued total counts everything that was handed out: signatures are returned only after they were saved, and a failed save is an error (shared with C06.R5 / C15.R1)", 2)
